@@ -18,7 +18,7 @@ FACTORS = {
     "metric": [{}, {"volume_variation": 0.5}],
     "n_total": [{"_nt": 24}, {"_nt": 64}],
 }
-TRIMS = [(0.99, 1000), (0.9, 10), (0.5, 10)]
+TRIMS = [(0.99, 1000), (0.9, 10), (0.5, 10), (0.9995, 2000)]
 FLAGS = [f + t for f in drivers.ALL_FLAGS for t in TRIMS]
 
 
